@@ -333,7 +333,7 @@ func ruleREC234(c *Ctx) {
 					switch {
 					case fieldNamed(info, as.Lhs[0], "_la") && exprString(as.Rhs[0]) == "ERROR":
 						setLa = true
-					case fieldNamed(info, as.Lhs[0], "_lasym") && info.TypeOf(as.Rhs[0]) != nil && info.TypeOf(as.Rhs[0]).String() == "tmpl.Error":
+					case fieldNamed(info, as.Lhs[0], "_lasym") && info.TypeOf(as.Rhs[0]) != nil && namedTypeName(info.TypeOf(as.Rhs[0])) == "Error":
 						setSym = true
 					case fieldNamed(info, as.Lhs[0], "_qla") && fieldNamed(info, as.Rhs[0], "_la"):
 						qLa = !setLa
@@ -607,6 +607,9 @@ func ruleBND2(c *Ctx) {
 		}
 	}
 	if ti == nil {
+		if c.prefix != "" {
+			return // a checked-in package whose parser type has no _onBounds
+		}
 		c.unres(rule, "template/bounds-variant", "", "no variant with the feature switch on")
 		return
 	}
